@@ -16,13 +16,17 @@ STD = "ACDEFGHIKLMNPQRSTVWY"
 EXTRA = "UO"
 RARE = "JX"
 
-NUM_INT = [1, 2, 10, 57, -18, 100, -1]
+NUM_INT = [1, 2, 10, 57, -18, 100, -1, -2]
 NUM_FLOAT = [3.1415, 15.9949, -17.026549, 79.966331, 0.984, 42.010565, -2.5]
 UNIMOD = ['Phospho', 'Oxidation', 'Acetyl', 'Carbamidomethyl', 'Methyl', 'Deamidated', 'Amidated']
 ACC = ['UNIMOD:21', 'U:21', 'U:Phospho', 'MOD:00046', 'M:00046', 'XLMOD:02001', 'X:02001', 'UNIMOD:35', 'U:1']
 FORMULA = ['Formula:C2H3O', 'Formula:[13C2]H4', 'Formula:C2H3O-1', 'Formula:H2O', 'Formula:CH2', 'Formula:CO', 'Formula:Co']
 # values that differ only in letter case and mean something else (carbon monoxide / cobalt)
 CASE_TWIN = {'Formula:CO': 'Formula:Co', 'Formula:Co': 'Formula:CO'}
+# near-miss values: different modification values that a sloppy comparison takes for the same - letter case only;
+# equal hash() in CPython (hash(-1) == hash(-2)); equal up to a float tolerance
+VALUE_TWIN = dict(CASE_TWIN)
+VALUE_TWIN.update({-1: -2, -2: -1, 15.9949: 15.995, 79.966331: 79.9663})
 GLYCAN = ['Glycan:Hex', 'Glycan:HexNAc2Hex3', 'Glycan:HexNAc', 'Glycan:Fuc1Hex1']
 OBS = ['Obs:+12.5', 'Obs:-3.25', 'U:+15.99']
 TAG = ['Phospho#g1', '#g1(0.5)', 'Oxidation#g2(0.9)']
@@ -34,7 +38,7 @@ FAMILIES = {'poisonvals': POISON, 'int': NUM_INT, 'float': NUM_FLOAT, 'unimod': 
             'glycan': GLYCAN, 'obs': OBS, 'tag': TAG, 'alt': ALT, 'info': INFO}
 MASSABLE = ['int', 'float', 'unimod', 'acc', 'formula', 'glycan', 'obs', 'tag', 'alt']
 COMPABLE = ['unimod', 'acc', 'formula', 'glycan', 'tag']  # have an elemental composition
-ISOTOPES = ['13C', '15N', '18O', '17O', '34S', 'D', 'T', '2H']
+ISOTOPES = ['13C', '15N', '18O', '17O', '34S', 'D', 'T', '2H', '12C', '14N', '16O', '1H']   # heavy and light labels
 ADDUCTS = ['+H+', '+Na+', '+2Na+,+H+', '+K+', '+2H+', '+Na+,+H+']
 
 LOCS = ('labile', 'static', 'isotope', 'unknown', 'nterm', 'cterm', 'internal', 'intervals', 'charge')
